@@ -696,6 +696,10 @@ func oracleRelease(o *e2eOutcome, v vfn) {
 			}
 			if r.Gen >= 2 && !everTransmitted(o, r.Name, relHash) && otherVersionHeld(o, r.Name, relHash) {
 				fp = "released-after-restart-on-name-only-poll"
+			} else if claimedUnseen(o, r.Name, relHash) {
+				// the receiver told the sender that it holds parts of this version which it
+				// never received: not the name-only-poll pattern, the answer itself was wrong
+				fp = "released-after-receiver-claimed-unseen-parts"
 			} else if otherVersionHeld(o, r.Name, relHash) && !completedAtReceiver(o, r.Name, relHash, lastPositivePoll(o, r.Name, r.VT)) {
 				// known pattern: the released version never became complete at the receiver
 				// (its record was started over by parts of another version arriving in
@@ -736,6 +740,35 @@ func everTransmitted(o *e2eOutcome, name, hash string) bool {
 // completedAtReceiver: did the receiver's record of (name, hash) ever cover the
 // whole file, i.e. did that version get as far as validation?  The record of a
 // name starts over whenever a part with another hash arrives.
+// claimedUnseen: did the receiver answer a "which of these parts do you hold" request
+// with a count that includes a part of (name, hash) of which it had received no byte?
+func claimedUnseen(o *e2eOutcome, name, hash string) bool {
+	for _, d := range o.reqs {
+		if d.Class != "recovery" || d.Err != "" {
+			continue
+		}
+		for pi, p := range d.Parts {
+			if pi >= d.N || p.Name != name || p.Hash != hash {
+				continue
+			}
+			seen := false
+			for _, e := range o.events {
+				if e.Seq > d.Seq+1000000 {
+					break
+				}
+				if e.Kind == "recv_part" && e.Name == name && e.S == hash && e.VT <= d.End && e.A < p.End && e.B > p.Beg {
+					seen = true
+					break
+				}
+			}
+			if !seen && !deliveredVersion(o, name, hash) {
+				return true
+			}
+		}
+	}
+	return false
+}
+
 // lastPositivePoll: sequence number of the latest positive poll answer for the
 // name given before virtual time vt (the answer the release rests on); -1 if none
 func lastPositivePoll(o *e2eOutcome, name string, vt time.Duration) int {
